@@ -178,6 +178,7 @@ struct GPending { // C15: consequence that must be visible once the reporting so
 	int sock;
 	int pref;
 	int expect;
+	int expect2 = -1; // kind 2: alternative reading of "still closed" (see group_oracle_on_status)
 };
 
 struct Win6 { // C06: one full reload of a socket that already holds data
